@@ -68,6 +68,11 @@ def gen_cases(tier, seed):
     sp_rows = (["SWT", "ARG", "IND", "MNG"] if tier == "quick" else ["SWT"] + rnd.sample([i for i in isos if i != "SWT"], 60))
     for iso in sp_rows:
         cases.append({"kind": "head_overrides", "iso": iso, "species": SPECIES, "gen_seed": seed, "id": "heads/%s" % iso})
+    for k in range(3 if tier == "quick" else 40):
+        iso = (["ARG", "FRA", "NZL", "USA", "BRA"][(k + seed) % 5] if k % 2 == 0 else rnd.choice(isos))
+        cases.append({"kind": "head_override_every_round", "iso": iso, "species": ["meat_cattle", "milk_cattle", "chicken", "pig", "meat_sheep"][(k + seed) % 5], "value": [40000000, 1000, 250000][k % 3],
+                      "shutoff": ["continued", "long_delayed_shutoff", "continued_after_10_percent_fed"][k % 3], "NMONTHS": [48, 72][k % 2],
+                      "scenario": ["no_resilient_foods", "all_resilient_foods"][k % 2], "id": "heads_every_round#%d/%s" % (k, iso)})
     for iso in (["ARG", "LUX"] if tier == "quick" else ["ARG", "LUX", "SWT", "USA", "DJI", "NZL"]):
         cases.append({"kind": "end_to_end_rejection", "iso": iso, "gen_seed": seed, "id": "e2e/%s" % iso})
     return cases
@@ -522,6 +527,44 @@ def head_overrides(case):
     return cx
 
 
+def head_override_every_round(case):
+    """A <species>_head override in a full three-round run must be the starting herd of EVERY herd simulation of the run
+    (no-feed round, feed round, final round), not only of the first."""
+    import contextlib
+    import io
+
+    from src.food_system import animal_populations as ap
+    from vlib import capture, workload
+
+    cx = Ctx(case["iso"])
+    col, val = case["species"] + "_head", case["value"]
+    seen = []
+    orig = ap.AnimalModelBuilder.create_animal_objects
+
+    def w(df_row, df_attr):
+        seen.append(float(df_row[col]))
+        return orig(df_row, df_attr)
+
+    ap.AnimalModelBuilder.create_animal_objects = w
+    try:
+        o = workload.base_country(shutoff=case["shutoff"], NMONTHS=case["NMONTHS"], scenario=case["scenario"])
+        o[col] = val
+        with contextlib.redirect_stdout(io.StringIO()):
+            tr = capture.run_pipeline({"iso": case["iso"], "opts": o})
+    finally:
+        ap.AnimalModelBuilder.create_animal_objects = orig
+    cx.n["herd_simulations_seen_with_override"] += len(seen)
+    if tr.error is not None or len(seen) < 2:
+        cx.n["head_override_runs_not_audited"] += 1
+        return cx
+    cx.n["head_override_full_runs"] += 1
+    wrong = [(k, v) for k, v in enumerate(seen) if v != float(val)]
+    if wrong:
+        cx.bad("head_override_missing_in_a_round", "%s=%s over a three-round run (%s): herd simulation #%d of %d starts from %s=%r" % (
+            col, val, case["shutoff"], wrong[0][0] + 1, len(seen), col, wrong[0][1]), species=case["species"], simulations=len(seen), starts=seen)
+    return cx
+
+
 def setter_names():
     """(name, family flag, needs country_data, needs time_consts, writes time_consts) for every public setter of Scenarios."""
     from src.scenarios.scenarios import Scenarios
@@ -714,7 +757,7 @@ def end_to_end_rejection(case):
 
 
 def run_case(case, tier):
-    fn = {"values": values, "rejections": rejections, "overrides": overrides, "head_overrides": head_overrides, "setter_pairs": setter_pairs,
+    fn = {"values": values, "rejections": rejections, "overrides": overrides, "head_overrides": head_overrides, "head_override_every_round": head_override_every_round, "setter_pairs": setter_pairs,
           "end_to_end_rejection": end_to_end_rejection}[case["kind"]]
     cx = fn(case)
     return {"viol": cx.viol, "obs": {"kind": case["kind"], "iso": cx.iso, "counts": dict(cx.n), "viol_counts": dict(cx.seen)}}
@@ -736,7 +779,9 @@ def summarize(cases, records, tier):
         "observations": {"values_of_the_other_scale_accepted_silently": int(tot.get("wrong_scale_accepted", 0)),
                          "grasses_all_crops_die_instantly_rejected_at_global_scale": int(tot.get("grasses_all_die_global_rejected", 0))},
     }
-    for need in ("values", "unknown_values", "missing_keys", "overrides", "head_overrides", "ordered_pairs", "same_family_pairs", "e2e_rejections"):
+    cov["head_override_full_runs"] = int(tot.get("head_override_full_runs", 0))
+    cov["herd_simulations_seen_with_override"] = int(tot.get("herd_simulations_seen_with_override", 0))
+    for need in ("values", "unknown_values", "missing_keys", "overrides", "head_overrides", "ordered_pairs", "same_family_pairs", "e2e_rejections", "head_override_full_runs"):
         if tot.get(need, 0) == 0:
             cov["inconclusive_reason"] = "nothing evaluated for " + need
     return cov
